@@ -254,6 +254,13 @@ def parse_file(src):
                     p.next()
                     have_assoc.append(squash(text_of(p.toks[a0:p.i])))
                 elif p.at("fn") or p.at("pub") or p.at("unsafe"):
+                    # the name first: a method without counterpart is reported as such, whatever its body looks like
+                    j = p.i
+                    while p.toks[j].t != "fn" and p.toks[j].k != "eof" and j < p.i + 4:
+                        j += 1
+                    if p.toks[j].t == "fn" and p.toks[j + 1].k == "id" and p.toks[j + 1].t not in methods:
+                        err(it.line, f"impl {trait or '(inherent)'} for {owner}: method `{p.toks[j + 1].t}` has no counterpart in the hand model "
+                                     "(an overridden iterator method changes what the public API does)")
                     f = p.fn(ia)
                     if f["unsafe"]:
                         err(f["line"], "unsafe fn")
